@@ -36,6 +36,20 @@ theorem C19_still_unrooted (n : RNode) (h : n.root = none) : (saveEffectOne n).r
   cases n with
   | mk i nm isR ro tp m ks => simp only [RNode.root] at h; subst h; rfl
 
+/-- a node that IS in a tree is not touched at all by a save, whatever its root is called (the writer only ever un-roots what
+    it has rooted itself: a Root that happens to be called `<node name>_root` is not the writer's temporary root) -/
+theorem C19_rooted_untouched (n : RNode) (r : Nat) (h : n.root = some r) : saveEffectOne n = n := by
+  cases n with
+  | mk i nm isR ro tp m ks => simp only [RNode.root] at h; subst h; rfl
+
+/-- objects that were not passed to the save are not touched -/
+theorem C19_others_untouched (h : Heap) (passed : List Nat) (c : RNode) (hc : c ∈ h.comps) (hp : passed.contains c.id = false) :
+    c ∈ (saveEffect h passed).comps := by
+  simp only [saveEffect, List.mem_map]
+  refine ⟨c, hc, ?_⟩
+  have : (passed.contains c.id) = false := hp
+  simp only [this, Bool.false_eq_true, if_false]
+
 theorem C19_can_be_added (hp : Heap) (pid cid : Nat) (p c : RNode) (x : Nat)
     (hf : hp.find pid = some p) (hc : hp.find cid = some c) (hr : p.root = some x) (hcr : c.root = none) (hne : pid ≠ cid) :
     (addToTree hp pid cid).2 = .ok := by
